@@ -184,3 +184,44 @@ class ResetRaw(io.RawIOBase):
         b[: len(part)] = part
         self.pos += len(part)
         return len(part)
+
+
+class ScheduleResponse(io.IOBase):
+    """Non-seekable file-like object that is neither RawIOBase nor BufferedIOBase (the shape of
+    HTTP client response objects): read(n) / readinto(b) hand out what the current network
+    segment holds, sized by the same kind of schedule as ScheduleRaw."""
+
+    def __init__(self, data: bytes, schedule=(), default: int | None = None) -> None:
+        super().__init__()
+        self.data = data
+        self.pos = 0
+        self.schedule = list(schedule)
+        self.default = default
+        self.ncalls = 0
+
+    def readable(self) -> bool:
+        return True
+
+    def seekable(self) -> bool:
+        return False
+
+    def _take(self, want: int) -> bytes:
+        i = self.ncalls
+        self.ncalls += 1
+        cap = self.schedule[i] if i < len(self.schedule) else self.default
+        n = want if cap is None else min(want, max(1, cap))
+        out = self.data[self.pos : self.pos + n]
+        self.pos += len(out)
+        return out
+
+    def read(self, size: int | None = -1) -> bytes:
+        if size is None or size < 0:
+            out = self.data[self.pos :]
+            self.pos = len(self.data)
+            return out
+        return self._take(size) if size else b""
+
+    def readinto(self, b) -> int:
+        out = self._take(len(b))
+        b[: len(out)] = out
+        return len(out)
